@@ -62,9 +62,34 @@ def run_engine_m(pid, conf, tier, seed, procs):
     # make sure the MIR dump exists before forking (one dump, many workers)
     from mirsmt import dump
     dump.get_dump(True)
+    only = os.environ.get("VERIF_ONLY")
+    if only:
+        args = [x for x in args if only in x[2]]
     with multiprocessing.Pool(min(procs, max(1, len(args)))) as pool:
         results = pool.map(_m_worker, args, chunksize=1)
     return results, table
+
+
+def run_validation(conf):
+    """translator validation: repo test inputs through the MIR executor (concrete) and the native code"""
+    if not conf.get("m"):
+        return 0, []
+    mod = importlib.import_module(conf["m"])
+    vecs = getattr(mod, "VALIDATION", [])
+    if not vecs:
+        return 0, []
+    from mirsmt import spec as mspec
+    built = mspec.build_native(("dev",))
+    if not built.get("dev"):
+        return 0, [("native build failed", "", "")]
+    calls, mism = 0, []
+    for entry in vecs:
+        fn, params, vectors = entry[0], entry[1], entry[2]
+        gen = entry[3] if len(entry) > 3 else None
+        c, m = mspec.validate(fn, params, vectors, generics=gen)
+        calls += c
+        mism += m
+    return calls, mism
 
 
 def main():
@@ -104,6 +129,13 @@ def main():
     except Exception as e:
         inconclusive.append("engine M failed: %s" % e)
         traceback.print_exc()
+    val_calls, val_mism = 0, []
+    try:
+        val_calls, val_mism = run_validation(conf)
+    except Exception as e:
+        inconclusive.append("translator validation failed to run: %s" % e)
+    for mm in val_mism[:5]:
+        inconclusive.append("translator validation mismatch (encoding vs native): %r" % (mm,))
     m_stats = {"jobs": len(m_results), "queries": 0, "holds": 0, "witness_ok": 0, "solver_s": 0.0, "encoded": set(),
                "models": set(), "samples": [], "nontrivial": 0}
     cex = []
@@ -136,7 +168,7 @@ def main():
         if len(m_stats["samples"]) < 6 and r["queries"]:
             m_stats["samples"].append({"engine": "M", "job": r["job"], "params": r.get("params"),
                                        "queries": [(q["name"], q["verdict"], q["seconds"]) for q in r["queries"] if q["kind"] != "panic"][:6],
-                                       "panic_obligations": sum(1 for q in r["queries"] if q["kind"] in ("panic", "unwind"))})
+                                       "panic_obligations": sum(1 for q in r["queries"] if q["kind"] in ("panic", "unwind", "exhaustive"))})
     if cex:
         from mirsmt import spec as mspec
         built = mspec.build_native()
@@ -243,13 +275,21 @@ def main():
         printed.add(key)
         print("KNOWN-FINDING: property=%s %s [%s]" % (pid, k.get("what", ""), k["label"]))
     rdir = os.path.join(VERIF, "replays", pid)
+    seen_labels = {}
     for v in new_v:
+        seen_labels[v["label"]] = seen_labels.get(v["label"], 0) + 1
+    reported = set()
+    for v in new_v:
+        if v["label"] in reported:
+            continue
+        reported.add(v["label"])
         os.makedirs(rdir, exist_ok=True)
         hsh = hashlib.sha1(json.dumps(v, sort_keys=True, default=str).encode()).hexdigest()[:10]
         path = os.path.join(rdir, "%s-%s.json" % (v["label"].replace("/", "_").replace(" ", "_")[:80], hsh))
         json.dump(v, open(path, "w"), indent=1, default=str)
         print("VIOLATION property=%s replay=%s" % (pid, path))
-        print("  label=%s engine=%s input=%s" % (v["label"], v["engine"], v.get("model") or v.get("vals")))
+        print("  label=%s engine=%s input=%s (%d failing job(s)/harness(es) with this label)" %
+              (v["label"], v["engine"], v.get("model") or v.get("vals"), seen_labels[v["label"]]))
     for s in inconclusive:
         print("INCONCLUSIVE: " + s)
 
@@ -271,6 +311,7 @@ def main():
                          "reachability_witnesses_ok": m_stats["witness_ok"], "solver_seconds": round(m_stats["solver_s"], 1),
                          "functions_encoded_from_mir": sorted(m_stats["encoded"]),
                          "leaf_models_used": sorted(m_stats["models"]),
+                         "translator_validation": {"calls_compared_encoding_vs_native": val_calls, "mismatches": len(val_mism)},
                          "mode": conf.get("m_opts", {}).get("mode", "debug")},
             "engine_K": {"harnesses": k_stats["harnesses"], "verified": k_stats["ok"], "cbmc_properties": k_stats["checks"],
                          "cover_witnesses_satisfied": k_stats["covers"], "wall_seconds": round(k_stats["solver_wall"], 1)},
